@@ -321,6 +321,15 @@ Proof.
   - simpl. destruct rec; simpl; [now rewrite andb_true_r | now rewrite andb_false_r].
 Qed.
 
+Lemma child_ne d n : d ++ sep :: n <> [].
+Proof. destruct d; discriminate. Qed.
+
+Lemma child_last_sep d n : valid_name n = true -> last_is_sep (d ++ sep :: n) = false.
+Proof.
+  intros Hn. change (d ++ sep :: n) with (d ++ [sep] ++ n). rewrite app_assoc.
+  now apply last_is_sep_app_name.
+Qed.
+
 (* ================================================================== 3. kernel, reader, emitter on one event *)
 Definition kset (k : kst) (q : list kraw) (c : N) : kst :=
   {| k_watches := k_watches k; k_next_wd := k_next_wd k; k_queue := q; k_next_cookie := c |}.
@@ -552,6 +561,276 @@ Proof.
   - apply N.eqb_eq in Eb. subst x. rewrite IH. destruct (N.eqb a b) eqn:Ea; [|reflexivity].
     apply N.eqb_eq in Ea. contradiction.
   - simpl. now rewrite IH.
+Qed.
+
+(* ---- what os.walk finds under a renamed directory *)
+Lemma beqb_sym a b : beqb a b = beqb b a.
+Proof.
+  destruct (beqb a b) eqn:E.
+  - apply beqb_eq in E. subst. symmetry. apply beqb_refl.
+  - symmetry. apply beqb_neq. apply beqb_neq in E. congruence.
+Qed.
+
+Lemma beqb_app_head a b c : beqb (a ++ b) (a ++ c) = beqb b c.
+Proof. induction a as [|x a IH]; simpl; [reflexivity|]. now rewrite N.eqb_refl. Qed.
+
+Lemma beqb_len a b : length a <> length b -> beqb a b = false.
+Proof. intros H. apply beqb_neq. intros E. subst. contradiction. Qed.
+
+Lemma last_is_sep_app a b : b <> [] -> last_is_sep (a ++ b) = last_is_sep b.
+Proof.
+  intros Hb. unfold last_is_sep. rewrite rev_app_distr. destruct (rev b) eqn:E; [|reflexivity].
+  apply (f_equal (@rev N)) in E. rewrite rev_involutive in E. contradiction.
+Qed.
+
+Lemma dirname_top n : valid_name n = true -> dirname (sep :: n) = [sep].
+Proof.
+  intros Hn. unfold dirname. change (rev (sep :: n)) with (rev n ++ [sep]).
+  rewrite (drop_to_sep_rev_app (rev n) []) by (apply in_rev_nosep, valid_name_nosep, Hn). reflexivity.
+Qed.
+
+Lemma dirname_wf d n : last_is_sep d = false -> valid_name n = true ->
+  dirname (d ++ sep :: n) = match d with [] => [sep] | _ => d end.
+Proof.
+  intros Hs Hn. destruct d as [|c d]; [now apply dirname_top|].
+  apply dirname_child; [discriminate | exact Hs | exact Hn].
+Qed.
+
+Lemma filter_map_comm {A B} (f : B -> bool) (g : A -> B) l :
+  filter f (map g l) = map g (filter (fun a => f (g a)) l).
+Proof. induction l as [|a l IH]; simpl; [reflexivity|]. destruct (f (g a)); simpl; now rewrite IH. Qed.
+
+Lemma filter_ext_in' {A} (f g : A -> bool) l : (forall a, In a l -> f a = g a) -> filter f l = filter g l.
+Proof.
+  induction l as [|a l IH]; intros H; simpl; [reflexivity|].
+  rewrite (H a (or_introl eq_refl)). rewrite IH; [reflexivity|]. intros b Hb. apply H. now right.
+Qed.
+
+Section Ren.
+  Variables (dp np dq nq : bytes) (t : fs).
+  Let p := dp ++ sep :: np.
+  Let q := dq ++ sep :: nq.
+  Hypothesis Hdp : dp <> [].
+  Hypothesis Hsp : last_is_sep dp = false.
+  Hypothesis Hnp : valid_name np = true.
+  Hypothesis Hdq : dq <> [].
+  Hypothesis Hsq : last_is_sep dq = false.
+  Hypothesis Hnq : valid_name nq = true.
+  Hypothesis Hwf : forall e, In e t -> wf_path (f_path e).
+  Hypothesis Hnoq : forall e, In e t -> beqb q (f_path e) = false.
+  Hypothesis Hunder : forall e, In e t -> under q (f_path e) = false.
+
+  Definition rnE (e : fent) : fent :=
+    if beqb (f_path e) p then {| f_path := q; f_ino := f_ino e; f_dir := f_dir e |}
+    else if under p (f_path e)
+         then {| f_path := q ++ skipn (length p) (f_path e); f_ino := f_ino e; f_dir := f_dir e |}
+         else e.
+
+  Lemma frename_map : frename p q t = map rnE t.
+  Proof. reflexivity. Qed.
+
+  (* x is p or a well-formed path below p *)
+  Record inp (x sx : bytes) : Prop :=
+    { inp_eq : x = p ++ sx; inp_sx : sx = [] \/ exists s, sx = sep :: s; inp_last : last_is_sep x = false }.
+
+  Lemma inp_p : inp p [].
+  Proof. constructor; [now rewrite app_nil_r | now left | apply child_last_sep; exact Hnp]. Qed.
+
+  Lemma under_split x : under p x = true -> exists s, x = p ++ sep :: s.
+  Proof. unfold under. intros H. apply starts_spec in H as [r0 ->]. exists r0. now rewrite <- app_assoc. Qed.
+
+  Lemma inp_under x sx : inp x sx -> beqb x p || under p x = true.
+  Proof.
+    intros [He [Hs|[s Hs]] _]; subst.
+    - rewrite app_nil_r, beqb_refl. reflexivity.
+    - apply orb_true_iff. right. unfold under. apply starts_spec. exists s. now rewrite <- app_assoc.
+  Qed.
+
+  Lemma inp_ne x sx : inp x sx -> x <> [].
+  Proof. intros [He _ _]. subst. unfold p. destruct dp; discriminate. Qed.
+
+  Lemma rn_last sx : inp (p ++ sx) sx -> last_is_sep (q ++ sx) = false.
+  Proof.
+    intros [_ [Hs|[s Hs]] Hl]; subst.
+    - rewrite app_nil_r. apply child_last_sep. exact Hnq.
+    - rewrite last_is_sep_app in * by discriminate. exact Hl.
+  Qed.
+
+  Lemma lenp : length p = length dp + 1 + length np.
+  Proof. unfold p. rewrite app_length. simpl. lia. Qed.
+  Lemma lenq : length q = length dq + 1 + length nq.
+  Proof. unfold q. rewrite app_length. simpl. lia. Qed.
+
+  (* the three kinds of entries *)
+  Inductive cls (e : fent) : Prop :=
+  | ClsP : f_path e = p -> f_path (rnE e) = q -> cls e
+  | ClsUnder sd n : f_path e = p ++ sd ++ sep :: n -> f_path (rnE e) = q ++ sd ++ sep :: n ->
+                    valid_name n = true -> inp (p ++ sd) sd -> cls e
+  | ClsOut d n : f_path e = d ++ sep :: n -> last_is_sep d = false -> valid_name n = true ->
+                 rnE e = e -> under p (f_path e) = false -> cls e.
+
+  Lemma classify e : In e t -> cls e.
+  Proof.
+    intros He. destruct (Hwf e He) as [d [n [Hy [Hd Hn]]]].
+    destruct (beqb (f_path e) p) eqn:E1.
+    - apply ClsP; [now apply beqb_eq | unfold rnE; rewrite E1; reflexivity].
+    - destruct (under p (f_path e)) eqn:E2.
+      + rewrite Hy in E2. rewrite under_child in E2 by exact Hn.
+        assert (Hsd : exists sd, d = p ++ sd /\ (sd = [] \/ exists s, sd = sep :: s)).
+        { apply orb_true_iff in E2 as [E2|E2].
+          - apply beqb_eq in E2. exists []. split; [now rewrite app_nil_r | now left].
+          - apply under_split in E2 as [s Hs]. exists (sep :: s). split; [exact Hs | right; eauto]. }
+        destruct Hsd as [sd [Hdd Hsd]].
+        apply ClsUnder with sd n.
+        * rewrite Hy, Hdd. now rewrite <- app_assoc.
+        * unfold rnE. rewrite E1.
+          assert (Hu : under p (f_path e) = true).
+          { rewrite Hy. rewrite under_child by exact Hn. exact E2. }
+          rewrite Hu. cbn [f_path]. rewrite Hy, Hdd, <- app_assoc, skipn_app_length. reflexivity.
+        * exact Hn.
+        * constructor; [reflexivity | exact Hsd | now rewrite <- Hdd].
+      + apply ClsOut with d n; auto. unfold rnE. now rewrite E1, E2.
+  Qed.
+
+  Lemma rnE_dir e : f_dir (rnE e) = f_dir e.
+  Proof. unfold rnE. destruct (beqb (f_path e) p); [reflexivity|]. destruct (under p (f_path e)); reflexivity. Qed.
+
+  Lemma is_child_rename e x sx : In e t -> inp x sx ->
+    is_child (q ++ sx) (f_path (rnE e)) = is_child x (f_path e).
+  Proof.
+    intros He Hx. assert (Hxe := inp_eq _ _ Hx).
+    destruct (classify e He) as [Hy Hy'|sd n Hy Hy' Hn Hd|d n Hy Hd Hn Hid Hnu].
+    - (* the directory itself *)
+      rewrite Hy, Hy'. unfold is_child.
+      replace (dirname q) with dq by (symmetry; apply dirname_child; assumption).
+      replace (dirname p) with dp by (symmetry; apply dirname_child; assumption).
+      rewrite (beqb_len dq), (beqb_len dp); [reflexivity | |].
+      + rewrite Hxe, app_length, lenp. lia.
+      + rewrite app_length, lenq. lia.
+    - (* below the directory *)
+      rewrite Hy, Hy'. unfold is_child.
+      rewrite !app_assoc.
+      rewrite (dirname_child (q ++ sd)), (dirname_child (p ++ sd));
+        try exact Hn; try (apply rn_last; exact Hd); try (exact (inp_last _ _ Hd));
+        try (intros E0; apply (f_equal (@length N)) in E0; rewrite app_length, ?lenp, ?lenq in E0; simpl in E0; lia).
+      rewrite Hxe. rewrite <- !app_assoc. rewrite !beqb_app_head. reflexivity.
+    - (* elsewhere *)
+      rewrite Hid. unfold is_child. rewrite Hy. rewrite dirname_wf by assumption.
+      assert (H1 : beqb (match d with [] => [sep] | _ => d end) x = false).
+      { destruct (beqb _ x) eqn:E; [|reflexivity]. apply beqb_eq in E. exfalso.
+        destruct d as [|c d].
+        - rewrite <- E in Hx. apply inp_last in Hx. discriminate.
+        - rewrite E in Hy. rewrite Hy in Hnu. rewrite under_child in Hnu by exact Hn.
+          rewrite (inp_under _ _ Hx) in Hnu. discriminate. }
+      assert (H2 : beqb (match d with [] => [sep] | _ => d end) (q ++ sx) = false).
+      { destruct (beqb _ (q ++ sx)) eqn:E; [|reflexivity]. apply beqb_eq in E. exfalso.
+        destruct d as [|c d].
+        - assert (Hl : last_is_sep (q ++ sx) = false) by (apply rn_last; rewrite <- Hxe; exact Hx).
+          rewrite <- E in Hl. discriminate.
+        - rewrite E in Hy. assert (Hu := Hunder e He). rewrite Hy in Hu.
+          rewrite under_child in Hu by exact Hn. apply orb_false_iff in Hu as [Hu1 Hu2].
+          destruct (inp_sx _ _ Hx) as [->|[s ->]].
+          + rewrite app_nil_r, beqb_refl in Hu1. discriminate.
+          + unfold under in Hu2.
+            change (q ++ sep :: s) with (q ++ [sep] ++ s) in Hu2. rewrite app_assoc in Hu2.
+            rewrite starts_app in Hu2. discriminate. }
+      now rewrite H1, H2.
+  Qed.
+
+  Lemma child_renamed e x sx : In e t -> inp x sx -> is_child x (f_path e) = true ->
+    exists sy, inp (f_path e) sy /\ f_path (rnE e) = q ++ sy /\ basename (f_path (rnE e)) = basename (f_path e).
+  Proof.
+    intros He Hx Hc. assert (Hxe := inp_eq _ _ Hx).
+    destruct (classify e He) as [Hy Hy'|sd n Hy Hy' Hn Hd|d n Hy Hd Hn Hid Hnu].
+    - exfalso. rewrite Hy in Hc. unfold is_child in Hc.
+      replace (dirname p) with dp in Hc by (symmetry; apply dirname_child; assumption).
+      rewrite (beqb_len dp) in Hc; [discriminate|].
+      rewrite Hxe, app_length, lenp. lia.
+    - exists (sd ++ sep :: n). split; [|split].
+      + constructor; [exact Hy | | rewrite Hy, app_assoc; apply child_last_sep; exact Hn].
+        right. destruct (inp_sx _ _ Hd) as [->|[s ->]]; [exists n; reflexivity | exists (s ++ sep :: n); reflexivity].
+      + exact Hy'.
+      + rewrite Hy, Hy'. rewrite !app_assoc. now rewrite !basename_child.
+    - exfalso. unfold is_child in Hc. rewrite Hy in Hc. rewrite dirname_wf in Hc by assumption.
+      apply andb_true_iff in Hc as [Hc _]. apply beqb_eq in Hc. destruct d as [|c d].
+      + rewrite <- Hc in Hx. apply inp_last in Hx. discriminate.
+      + rewrite Hc in Hy. rewrite Hy in Hnu. rewrite under_child in Hnu by exact Hn.
+        rewrite (inp_under _ _ Hx) in Hnu. discriminate.
+  Qed.
+
+  Lemma content_fuel_rename n : forall x sx, inp x sx ->
+    content_fuel n (map rnE t) (q ++ sx) = content_fuel n t x.
+  Proof.
+    induction n as [|n IH]; intros x sx Hx; [reflexivity|]. cbn [content_fuel].
+    rewrite !filter_map_comm, !map_map.
+    f_equal.
+    - rewrite (filter_ext_in' _ (fun e => is_child x (f_path e) && f_dir e)).
+      2:{ intros e He. now rewrite (is_child_rename e x sx He Hx), rnE_dir. }
+      apply map_ext_in. intros e He. apply filter_In in He as [He Hc]. apply andb_true_iff in Hc as [Hc _].
+      destruct (child_renamed e x sx He Hx Hc) as [sy [Hy [Hy' Hb]]].
+      rewrite Hb, Hy'. f_equal. now apply IH.
+    - rewrite (filter_ext_in' _ (fun e => is_child x (f_path e) && negb (f_dir e))).
+      2:{ intros e He. now rewrite (is_child_rename e x sx He Hx), rnE_dir. }
+      apply map_ext_in. intros e He. apply filter_In in He as [He Hc]. apply andb_true_iff in Hc as [Hc _].
+      destruct (child_renamed e x sx He Hx Hc) as [sy [Hy [Hy' Hb]]]. exact Hb.
+  Qed.
+
+  Lemma flookup_renamed e : flookup p t = Some e ->
+    flookup q (map rnE t) = Some {| f_path := q; f_ino := f_ino e; f_dir := f_dir e |}.
+  Proof.
+    clear Hwf Hunder. induction t as [|a l IH]; simpl; [discriminate|]. intros H.
+    assert (Hnoq' : forall e0, In e0 l -> beqb q (f_path e0) = false) by (intros; apply Hnoq; now right).
+    assert (Ha := Hnoq a (or_introl eq_refl)).
+    rewrite (beqb_sym p (f_path a)) in H.
+    assert (Hr : rnE a = if beqb (f_path a) p then {| f_path := q; f_ino := f_ino a; f_dir := f_dir a |}
+                         else if under p (f_path a)
+                              then {| f_path := q ++ skipn (length p) (f_path a); f_ino := f_ino a; f_dir := f_dir a |}
+                              else a) by reflexivity.
+    rewrite Hr. clear Hr.
+    destruct (beqb (f_path a) p) eqn:E1.
+    - inversion H; subst. cbn [f_path]. now rewrite beqb_refl.
+    - destruct (under p (f_path a)) eqn:Eu.
+      + cbn [f_path]. apply under_split in Eu as [s Hs]. rewrite Hs, skipn_app_length.
+        rewrite (beqb_len q); [|rewrite app_length; simpl; lia]. now apply IH.
+      + rewrite Ha. now apply IH.
+  Qed.
+
+  Lemma content_rename : fisdir p t = true -> content (frename p q t) q = content t p.
+  Proof.
+    intros Hd. unfold content. rewrite Hd. rewrite frename_map.
+    unfold fisdir in *. destruct (flookup p t) as [e|] eqn:E; [|discriminate].
+    rewrite (flookup_renamed e E). cbn [f_dir]. rewrite Hd. rewrite map_length.
+    rewrite <- (content_fuel_rename (length t) p [] inp_p). now rewrite app_nil_r.
+  Qed.
+End Ren.
+
+Lemma wf_go_dirs k t (l : list fent) :
+  (forall e, In e l -> valid_name (basename (f_path e)) = true) ->
+  (forall d, wf_tree (content_fuel k t d) = true) ->
+  (fix go (l : list (bytes * tree)) : bool :=
+     match l with
+     | [] => true
+     | (n, sub) :: l' => valid_name n && wf_tree sub && go l'
+     end) (map (fun e => (basename (f_path e), content_fuel k t (f_path e))) l) = true.
+Proof.
+  intros Hv Hk. induction l as [|a l IH]; simpl; [reflexivity|].
+  rewrite (Hv a (or_introl eq_refl)), Hk. simpl. apply IH. intros e He. apply Hv. now right.
+Qed.
+
+Lemma content_fuel_wf t : (forall e, In e t -> valid_name (basename (f_path e)) = true) ->
+  forall n d, wf_tree (content_fuel n t d) = true.
+Proof.
+  intros Hv. induction n as [|n IH]; intros d; [reflexivity|]. cbn [content_fuel wf_tree].
+  apply andb_true_iff. split.
+  - apply forallb_forall. intros x Hx. apply in_map_iff in Hx as [e [<- He]].
+    apply filter_In in He as [He _]. now apply Hv.
+  - apply wf_go_dirs; [|exact IH]. intros e He. apply filter_In in He as [He _]. now apply Hv.
+Qed.
+
+Lemma content_wf t d : (forall e, In e t -> wf_path (f_path e)) -> wf_tree (content t d) = true.
+Proof.
+  intros Hwf. unfold content. destruct (fisdir d t); [|reflexivity]. apply content_fuel_wf.
+  intros e He. destruct (Hwf e He) as [d0 [n [-> [_ Hn]]]]. now rewrite basename_child.
 Qed.
 
 (* ================================================================== 4. completeness, one operation at a time *)
@@ -873,15 +1152,6 @@ Section Complete.
     rewrite map_map. apply map_ext. intros [k0 rel]. unfold expect_created. cbn. destruct k0; reflexivity.
   Qed.
 
-  Lemma child_ne d n : d ++ sep :: n <> [].
-  Proof. destruct d; discriminate. Qed.
-
-  Lemma child_last_sep d n : valid_name n = true -> last_is_sep (d ++ sep :: n) = false.
-  Proof.
-    intros Hn. change (d ++ sep :: n) with (d ++ [sep] ++ n). rewrite app_assoc.
-    now apply last_is_sep_app_name.
-  Qed.
-
   (* rename of a directory onto a name that does not exist: inside the scope (with the synthetic moved events
      of its descendants), out of it, into it (with synthetic created events).  The two facts about the tree
      (what os.walk finds under the new name afterwards is what it found under the old name before; names are
@@ -947,6 +1217,37 @@ Section Complete.
         change (is_directory (N.lor IN_MOVED_TO IN_ISDIR)) with true. cbv iota.
         rewrite Hsc. destruct rec, full; cbn [andb app]; rewrite ?app_nil_r; reflexivity.
       + rewrite knotify_miss by exact Hcq. eexists; split; reflexivity.
+  Qed.
+
+  Lemma flookup_none q t : flookup q t = None -> forall e, In e t -> beqb q (f_path e) = false.
+  Proof.
+    induction t as [|a l IH]; simpl; [intros _ e []|]. destruct (beqb q (f_path a)) eqn:E; [discriminate|].
+    intros H e [<-|He]; [exact E | now apply IH].
+  Qed.
+
+  (* the same from well-formedness of the tree: every entry has a well-formed path, the target does not exist
+     and nothing lies under it *)
+  Lemma contract_rename_dir dp np dq nq w' :
+    dp <> [] -> last_is_sep dp = false -> valid_name np = true ->
+    dq <> [] -> last_is_sep dq = false -> valid_name nq = true ->
+    cover C r k (w_fs w) dp -> cover C r k (w_fs w) dq ->
+    fisdir (dp ++ sep :: np) (w_fs w) = true -> fexists (dq ++ sep :: nq) (w_fs w) = false ->
+    (forall e, In e (w_fs w) -> wf_path (f_path e)) ->
+    (forall e, In e (w_fs w) -> under (dq ++ sep :: nq) (f_path e) = false) ->
+    apply_op w (Rename (dp ++ sep :: np) (dq ++ sep :: nq)) = Some w' ->
+    delivers C full w k r (Rename (dp ++ sep :: np) (dq ++ sep :: nq)).
+  Proof.
+    intros Hdp Hsp Hnp Hdq Hsq Hnq Hcp Hcq Hfp Hfq Hwf Hun Happ.
+    assert (Hq0 : flookup (dq ++ sep :: nq) (w_fs w) = None).
+    { unfold fexists in Hfq. destruct (flookup _ (w_fs w)); [discriminate | reflexivity]. }
+    assert (Hfs : w_fs w' = frename (dp ++ sep :: np) (dq ++ sep :: nq) (w_fs w)).
+    { cbn [apply_op] in Happ. destruct (flookup (dp ++ sep :: np) (w_fs w)); [|discriminate].
+      destruct (beqb _ _ || under _ _ || negb _); [discriminate|]. rewrite Hq0 in Happ.
+      inversion Happ. reflexivity. }
+    apply contract_rename_dir_tree with w'; try assumption.
+    - unfold fisdir. now rewrite Hq0.
+    - rewrite Hfs. apply content_rename; try assumption. now apply flookup_none.
+    - now apply content_wf.
   Qed.
 End Complete.
 
@@ -1039,3 +1340,16 @@ Definition ex_ok (recursive full : bool) (ds : list bytes) (o : op) (l : list ne
   apply_op ex_world o <> None /\
   deliver_one (ex_C recursive) full ex_world (ex_k recursive) (ex_r recursive) o = Some l /\
   collapse l = collapse (contract recursive full ex_R ex_fs o).
+
+Lemma wf_pathb_sound y : wf_pathb y = true -> wf_path y.
+Proof.
+  unfold wf_pathb. intros H. apply andb_true_iff in H as [H Hn]. apply andb_true_iff in H as [He Hs].
+  apply beqb_eq in He. apply negb_true_iff in Hs. exists (path_dir y), (basename y). auto.
+Qed.
+
+Lemma wf_fsb_sound t : forallb (fun e => wf_pathb (f_path e)) t = true -> forall e, In e t -> wf_path (f_path e).
+Proof. intros H e He. rewrite forallb_forall in H. apply wf_pathb_sound. now apply H. Qed.
+
+Lemma not_under_sound q t :
+  forallb (fun e => negb (under q (f_path e))) t = true -> forall e, In e t -> under q (f_path e) = false.
+Proof. intros H e He. rewrite forallb_forall in H. apply negb_true_iff. now apply H. Qed.
